@@ -5,6 +5,8 @@ import Mathlib.Tactic.NormNum
 import Mathlib.Tactic.Positivity
 import Mathlib.Tactic.FieldSimp
 import Mathlib.Tactic.LinearCombination
+import Mathlib.Tactic.FinCases
+import Mathlib.Data.Fin.VecNotation
 /-!
 # C19 — fragment additivity and the pair cutoff
 
@@ -178,6 +180,14 @@ example : (4, 7) ∉ pairList 2 4 exSp (closeOf exD2 2) ∧ (4, 5) ∈ pairList 
 example : ∀ i j, i < j → j < 2 * 4 → i / 4 = j / 4 → 0 < exSp i → 0 < exSp j → exD2 i j < 1e20 := by
   intro i j _ _ _ _ _
   unfold exD2; split <;> norm_num
+
+example : ((0 : ℚ) - 1e9) * (0 - 1e9) + (1e9 - -1e9) * (1e9 - -1e9) + (0 - 0) * (0 - 0) < 1e20 :=
+  bounded_coordinates_are_close ![0, 1e9, 0] ![1e9, -1e9, 0]
+    (by intro k; fin_cases k <;> simp <;> norm_num) (by intro k; fin_cases k <;> simp <;> norm_num)
+
+/-- a neutral fragment `(+1, −1)` next to a charged one -/
+example : (([1, -1] : List ℝ).map fun a => (([2] : List ℝ).map fun b => a * b * 3).sum).sum = 0 :=
+  (monopole_sum_neutral [1, -1] [2] id 3).2 (Or.inl (by norm_num))
 
 example : |1 / Real.sqrt ((10 : ℝ) ^ 2 + 1 ^ 2) - 1 / 10| ≤ 1 ^ 2 / (2 * 10 ^ 3) :=
   klopman_ohno_asymptotic 10 1 (by norm_num) (by norm_num)
